@@ -1,4 +1,4 @@
-\* exhaustive (thorough): 2 batchers, count 4, no size threshold, memory 1 KB, no timer, depth 8
+\* exhaustive (thorough): 2 batchers, count 4, no size threshold, memory 1 KB, no timer, depth 11
 SPECIFICATION Spec
 CHECK_DEADLOCK FALSE
 VIEW view
@@ -11,7 +11,7 @@ CONSTANTS
   MemMax = 2
   TimerOn = FALSE
   WithFail = TRUE
-  MaxOps = 8
+  MaxOps = 11
   ResetOnError = TRUE
   AddBeforeChecks = TRUE
   RemoveWhole = TRUE
